@@ -396,6 +396,76 @@ def expected_suggestions(cycles):
     return out + S_LAST
 
 
+def cli_project(ck, d, n, edges, names, k, replay_extra=None):
+    """One generated project in directory d through the command line; `names` are the module names the report must use
+    (compared after `short`: a project without marker file gets the directory name as prefix).  Returns the graph entry for
+    big_graphs (spec: strongly connected components of `edges`), None if no report came back."""
+    rx = dict({"kind": "e2e", "dir": d, "edges": edges}, **(replay_extra or {}))
+    rc, data, err = lib.analyze_json(d, ["--select", "deps"])
+    if data is None:
+        ck.broken_ties.append("e2e: pyscn analyze --select deps produced no report (rc=%s): %s" % (rc, err[-300:]))
+        return None
+    try:
+        da = data["system"]["DependencyAnalysis"]
+        cd = da["CircularDependencies"] or {}
+        total = da["TotalModules"]
+    except Exception as e:
+        ck.broken_ties.append("e2e: unexpected report shape: %s" % e)
+        return None
+    if total != n:
+        ck.broken_ties.append("e2e: %d modules generated, report has TotalModules=%s" % (n, total))
+        return None
+    known = set(names)
+
+    def short(m):
+        while m not in known and "." in m:
+            m = m.split(".", 1)[1]
+        return m
+    cycles = [{"modules": [short(m) for m in c["Modules"]], "size": c["Size"], "severity": c["Severity"], "full": c["Modules"]}
+              for c in (cd.get("CircularDependencies") or [])]
+    sugg = cd.get("CycleBreakingSuggestions") or []
+    if sugg != expected_suggestions(cycles):
+        ck.violation("CycleBreakingSuggestions %s do not follow from the reported cycles (expected %s)" % (sugg, expected_suggestions(cycles)), rx)
+    if cd.get("CoreInfrastructure"):
+        ck.violation("CoreInfrastructure %s: no module can lie in two cycles" % cd.get("CoreInfrastructure"), rx)
+    rank = {"critical": 4, "high": 3, "medium": 2, "low": 1}
+    keys = [(-rank.get(c["severity"], 0), -c["size"], c["full"][0] if c["full"] else "") for c in cycles]
+    if keys != sorted(keys):
+        ck.violation("cycles are not listed by severity, size and first module: %s" % [(c["severity"], c["size"], c["full"][:1]) for c in cycles], rx)
+    run = {"cycles": cycles, "total_cycles": cd.get("TotalCycles", 0), "total_modules": cd.get("TotalModulesInCycles", 0),
+           "has": cd.get("HasCircularDependencies", False)}
+    summ = data.get("summary", {})
+    if summ.get("deps_modules_in_cycles") != run["total_modules"]:
+        ck.violation("summary.deps_modules_in_cycles %s differs from TotalModulesInCycles %s"
+                     % (summ.get("deps_modules_in_cycles"), run["total_modules"]), rx)
+    # `pyscn check --select deps`: one line per cycle
+    rc2, out2, err2 = lib.pyscn(["check", "--select", "deps", "."], d)
+    lines = re.findall(r"circular dependency detected: (.*)", out2 + err2)
+    chk_cycles = sorted(sorted(short(x.strip()) for x in l.split("->")) for l in lines)
+    if chk_cycles != sorted(sorted(c["modules"]) for c in cycles):
+        ck.violation("`pyscn check --select deps` lists cycles %s, `pyscn analyze` lists %s" % (chk_cycles, sorted(sorted(c["modules"]) for c in cycles)), rx)
+    if (rc2 != 0) != (len(cycles) > 0):
+        ck.violation("`pyscn check --select deps` exit code %d with %d cycles" % (rc2, len(cycles)), rx)
+    # --max-cycles: the check fails iff there are more cycles than allowed; --allow-circular-deps never fails
+    if cycles and (k < 4 or k % 3 == 0):
+        nc = len(cycles)
+        for limit in (nc - 1, nc, nc + 1):
+            rc3, out3, err3 = lib.pyscn(["check", "--select", "deps", "--max-cycles", str(limit), "."], d)
+            if (rc3 != 0) != (nc > limit):
+                ck.violation("`pyscn check --select deps --max-cycles %d` exit code %d with %d cycles" % (limit, rc3, nc), rx)
+        rc4, out4, err4 = lib.pyscn(["check", "--select", "deps", "--allow-circular-deps", "."], d)
+        if rc4 != 0:
+            ck.violation("`pyscn check --select deps --allow-circular-deps` exit code %d" % rc4, rx)
+    # the dependency part of a full `pyscn analyze` is the one of `--select deps`
+    if k in (1, 2):
+        rcf, full, errf = lib.analyze_json(d, [])
+        cdf = (((full or {}).get("system") or {}).get("DependencyAnalysis") or {}).get("CircularDependencies") if full else None
+        if cdf != cd and not (not cdf and not cd):
+            ck.violation("CircularDependencies of a full `pyscn analyze --json` differ from `--select deps`",
+                         dict(rx, full=cdf, select_deps=cd))
+    return dict({"kind": "e2e", "n": n, "edges": edges, "names": names, "impl": [run], "dir": d}, **(replay_extra or {}))
+
+
 def e2e_projects(ck, rng, count):
     graphs = []
     for k in range(count):
@@ -425,68 +495,128 @@ def e2e_projects(ck, rng, count):
             lines.append("value = %d" % i)
             with open(os.path.join(d, names[i] + ".py"), "w") as f:
                 f.write("\n".join(lines) + "\n")
-        rc, data, err = lib.analyze_json(d, ["--select", "deps"])
-        if data is None:
-            ck.broken_ties.append("e2e: pyscn analyze --select deps produced no report (rc=%s): %s" % (rc, err[-300:]))
+        g = cli_project(ck, d, n, edges, names, k)
+        if g:
+            graphs.append(g)
+    return graphs
+
+
+# names that are string prefixes of one another without one module lying below the other
+PFX_STEMS = ["core", "api", "app", "data", "db"]
+PFX_TAILS = ["_utils", "lib", "2", "s", "_client", "x"]
+
+
+def prefix_layout(rng):
+    """Module names and files: package S (S/__init__.py) with the submodule S.engine, next to it the plain modules S<t1>.py and
+    S<t3>.py, the package S<t2>/ with S<t2>.x, the module named by S without its last letter; one level down the package S.net/
+    with S.net.v1 next to the module S.net_client.py and the package S.netx/; two unrelated controls (package ctl/, module side.py)."""
+    S = rng.choice(PFX_STEMS)
+    t1, t2, t3 = rng.sample(PFX_TAILS, 3)
+    inner = rng.choice(["net", "rpc", "web"])
+    mods = [((S,), True), ((S, "engine"), False), ((S + t1,), False), ((S + t2,), True), ((S + t2, "x"), False), ((S + t3,), False),
+            ((S[:-1],), False), ((S, inner), True), ((S, inner, "v1"), False), ((S, inner + "_client"), False), ((S, inner + "x"), True),
+            (("ctl",), True), (("side",), False)]
+    return mods
+
+
+def forest_partition(pairs):
+    """split the pairs into groups in which they form a forest (union-find, first fit): in the graph that has the two imports
+    a -> b and b -> a for every pair of a group, every import is a bridge of its strongly connected component"""
+    groups = []
+    for a, b in pairs:
+        for g in groups:
+            ra, rb = g["find"](a), g["find"](b)
+            if ra != rb:
+                g["parent"][ra] = rb
+                g["pairs"].append((a, b))
+                break
+        else:
+            parent = {}
+
+            def find(x, parent=parent):
+                while parent.setdefault(x, x) != x:
+                    x = parent[x]
+                return x
+            parent[find(a)] = find(b)
+            groups.append({"parent": parent, "find": find, "pairs": [(a, b)]})
+    return [g["pairs"] for g in groups]
+
+
+def prefix_named_projects(ck, rng, count):
+    """Projects whose import graph runs over prefix-related module names, written the way Python defines the graph:
+    module a imports module b iff a's file (the __init__.py for a package) contains `import b` / `from b import value`
+    (absolute, from the project root; every file defines `value`).  An __init__.py never imports a module below its own
+    package (pyscn leaves those edges out on purpose, C12 F32) and reaches other modules by `import b` only (a from-import
+    in an __init__ re-exports the name, C12 F34).
+    Graphs: (1) systematic — for every pair (a, b) of modules whose names are related as strings (a's name a proper string
+    prefix of b's) and not as package/submodule, the imports a -> b and b -> a; the pairs are spread over as few projects as
+    keep every such import a bridge of its component (losing any single one changes the components), next to a control cycle;
+    (2) random — rings a -> b -> v1 .. vk -> a through a related pair in a random direction on disjoint module sets, sparse
+    acyclic imports between the rest; (3) a planted random graph with all related imports added."""
+    graphs = []
+    layout = prefix_layout(rng)
+    names = [".".join(p) for p, _ in layout]
+    n = len(names)
+
+    def below(a, b):           # b lies below package a
+        return layout[a][1] and layout[b][0][:len(layout[a][0])] == layout[a][0] and a != b
+
+    related = [(a, b) for a in range(n) for b in range(n)
+               if a != b and names[b].startswith(names[a]) and not below(a, b)]
+    ctl = (names.index("ctl"), names.index("side"))
+    plans = []
+    for pairs in forest_partition(related):
+        plans.append(("two-cycles", [(a, b) for a, b in pairs] + [(b, a) for a, b in pairs] + [ctl, ctl[::-1]]))
+    k = 0
+    while len(plans) < count:
+        k += 1
+        if k % 4 == 0:
+            _, edges = planted_graph(rng, n)
+            plans.append(("planted+related", edges + related + [(b, a) for a, b in related if rng.random() < 0.5]))
             continue
-        try:
-            da = data["system"]["DependencyAnalysis"]
-            cd = da["CircularDependencies"] or {}
-            total = da["TotalModules"]
-        except Exception as e:
-            ck.broken_ties.append("e2e: unexpected report shape: %s" % e)
-            continue
-        if total != n:
-            ck.broken_ties.append("e2e: %d modules generated, report has TotalModules=%s" % (n, total))
-            continue
-        short = lambda m: m.rsplit(".", 1)[-1]
-        cycles = [{"modules": [short(m) for m in c["Modules"]], "size": c["Size"], "severity": c["Severity"], "full": c["Modules"]}
-                  for c in (cd.get("CircularDependencies") or [])]
-        sugg = cd.get("CycleBreakingSuggestions") or []
-        if sugg != expected_suggestions(cycles):
-            ck.violation("CycleBreakingSuggestions %s do not follow from the reported cycles (expected %s)" % (sugg, expected_suggestions(cycles)),
-                         {"kind": "e2e", "dir": d, "edges": edges})
-        if cd.get("CoreInfrastructure"):
-            ck.violation("CoreInfrastructure %s: no module can lie in two cycles" % cd.get("CoreInfrastructure"), {"kind": "e2e", "dir": d})
-        rank = {"critical": 4, "high": 3, "medium": 2, "low": 1}
-        keys = [(-rank.get(c["severity"], 0), -c["size"], c["full"][0] if c["full"] else "") for c in cycles]
-        if keys != sorted(keys):
-            ck.violation("cycles are not listed by severity, size and first module: %s" % [(c["severity"], c["size"], c["full"][:1]) for c in cycles],
-                         {"kind": "e2e", "dir": d, "edges": edges})
-        run = {"cycles": cycles, "total_cycles": cd.get("TotalCycles", 0), "total_modules": cd.get("TotalModulesInCycles", 0),
-               "has": cd.get("HasCircularDependencies", False)}
-        summ = data.get("summary", {})
-        if summ.get("deps_modules_in_cycles") != run["total_modules"]:
-            ck.violation("summary.deps_modules_in_cycles %s differs from TotalModulesInCycles %s"
-                         % (summ.get("deps_modules_in_cycles"), run["total_modules"]), {"kind": "e2e", "dir": d})
-        # `pyscn check --select deps`: one line per cycle
-        rc2, out2, err2 = lib.pyscn(["check", "--select", "deps", "."], d)
-        lines = re.findall(r"circular dependency detected: (.*)", out2 + err2)
-        chk_cycles = sorted(sorted(short(x.strip()) for x in l.split("->")) for l in lines)
-        if chk_cycles != sorted(sorted(c["modules"]) for c in cycles):
-            ck.violation("`pyscn check --select deps` lists cycles %s, `pyscn analyze` lists %s" % (chk_cycles, sorted(sorted(c["modules"]) for c in cycles)),
-                         {"kind": "e2e", "dir": d, "edges": edges})
-        if (rc2 != 0) != (len(cycles) > 0):
-            ck.violation("`pyscn check --select deps` exit code %d with %d cycles" % (rc2, len(cycles)), {"kind": "e2e", "dir": d})
-        # --max-cycles: the check fails iff there are more cycles than allowed; --allow-circular-deps never fails
-        if cycles and (k < 4 or k % 3 == 0):
-            nc = len(cycles)
-            for limit in (nc - 1, nc, nc + 1):
-                rc3, out3, err3 = lib.pyscn(["check", "--select", "deps", "--max-cycles", str(limit), "."], d)
-                if (rc3 != 0) != (nc > limit):
-                    ck.violation("`pyscn check --select deps --max-cycles %d` exit code %d with %d cycles" % (limit, rc3, nc),
-                                 {"kind": "e2e", "dir": d, "edges": edges})
-            rc4, out4, err4 = lib.pyscn(["check", "--select", "deps", "--allow-circular-deps", "."], d)
-            if rc4 != 0:
-                ck.violation("`pyscn check --select deps --allow-circular-deps` exit code %d" % rc4, {"kind": "e2e", "dir": d})
-        # the dependency part of a full `pyscn analyze` is the one of `--select deps`
-        if k in (1, 2):
-            rcf, full, errf = lib.analyze_json(d, [])
-            cdf = (((full or {}).get("system") or {}).get("DependencyAnalysis") or {}).get("CircularDependencies") if full else None
-            if cdf != cd and not (not cdf and not cd):
-                ck.violation("CircularDependencies of a full `pyscn analyze --json` differ from `--select deps`",
-                             {"kind": "e2e", "dir": d, "full": cdf, "select_deps": cd})
-        graphs.append({"kind": "e2e", "n": n, "edges": edges, "names": names, "impl": [run], "dir": d})
+        free = list(range(n))
+        rng.shuffle(free)
+        edges = []
+        for _ in range(rng.choice([1, 2, 3])):
+            cand = [(a, b) for a, b in related if a in free and b in free]
+            if not cand:
+                break
+            a, b = rng.choice(cand)
+            if rng.random() < 0.5:
+                a, b = b, a
+            free.remove(a)
+            free.remove(b)
+            ring = [a, b] + [free.pop() for _ in range(min(len(free), rng.choice([0, 0, 1, 2, 3])))]
+            edges += [(ring[i], ring[(i + 1) % len(ring)]) for i in range(len(ring))]
+        order = list(range(n))
+        rng.shuffle(order)
+        for _ in range(rng.randint(0, 6)):                       # acyclic extras: along a fixed order, leaving the rings alone
+            i, j = sorted(rng.sample(range(n), 2))
+            if order[i] in free and order[j] in free:
+                edges.append((order[i], order[j]))
+        edges.append((rng.randrange(n), 1000 + rng.randrange(5)))
+        plans.append(("rings", edges))
+    for k, (plan, edges) in enumerate(plans):
+        edges = [(a, b) for a, b in edges if a >= 1000 or b >= 1000 or not (below(a, b) and layout[a][1])]
+        d = lib.fresh_dir("c11_e2e_pfx_%d" % k)
+        open(os.path.join(d, "requirements.txt"), "w").close()
+        files = {}
+        for i, (p, is_pkg) in enumerate(layout):
+            lines = []
+            for j, (a, b) in enumerate(edges):
+                if a != i:
+                    continue
+                tgt = names[b] if b < 1000 else "extlib%d" % b
+                lines.append("import %s" % tgt if (is_pkg or (i + j) % 2 == 0) else "from %s import value" % tgt)
+            lines.append("value = %d" % i)
+            rel = os.path.join(*p, "__init__.py") if is_pkg else os.path.join(*p[:-1], p[-1] + ".py")
+            os.makedirs(os.path.dirname(os.path.join(d, rel)), exist_ok=True)
+            files[rel] = "\n".join(lines) + "\n"
+            with open(os.path.join(d, rel), "w") as f:
+                f.write(files[rel])
+        g = cli_project(ck, d, n, edges, names, k + 3, {"layout": "prefix-related names: " + plan, "files": files})
+        if g:
+            graphs.append(g)
     return graphs
 
 
@@ -589,11 +719,12 @@ def main(tier):
         graphs.append({"kind": "random", "n": n, "edges": e, "names": name_table(rng, n, k % 2 == 1)})
     # ---- part C: command line --------------------------------------------------------------
     e2e = e2e_projects(ck, rng, 24 if thorough else 8)
-    graphs += e2e
+    pfx = prefix_named_projects(ck, rng, 16 if thorough else 5)
+    graphs += e2e + pfx
     namespace_cycle(ck)
     lib.log("C11: cli projects done at %.1fs" % (__import__("time").time() - ck.t0))
     n_eval += big_graphs(ck, graphs)
-    dist.update({"boundary_graphs": len(boundary_graphs()), "random_graphs_upto_60": n_big, "cli_projects": len(e2e)})
+    dist.update({"boundary_graphs": len(boundary_graphs()), "random_graphs_upto_60": n_big, "cli_projects": len(e2e), "cli_projects_prefix_related_names": len(pfx)})
 
     ck.samples = [{"n": 3, "mask": 106, "edges": mask_edges(3, 106)},
                   {"modules": graphs[0]["n"], "edges": graphs[0]["edges"][:12]},
@@ -607,7 +738,11 @@ def main(tier):
                 "self-imports, duplicate and external imports, hubs with fan-in 10..12), one cycle of each size 2..12 around the "
                 "severity thresholds, generated Python projects through `pyscn analyze --json --select deps` and `pyscn check` (also --max-cycles at the "
                 "number of cycles and next to it, --allow-circular-deps, a full analyze, the suggestions derived from the cycles, a cycle inside "
-                "a namespace package). "
+                "a namespace package; projects over module names that are string prefixes of one another without being package and "
+                "submodule (package next to prefix-named modules and packages, also one level down): for every such pair the imports in both "
+                "directions, from __init__ files and ordinary modules, arranged so that each is a bridge of its cycle, then rings "
+                "through a related pair and planted graphs with all related imports — cycle set, counts, `check` lines and exit codes "
+                "against the components of the graph the import statements define). "
                 "distinct_nontrivial = graphs with at least one cycle",
         "input_distribution": dict(dist, distinct_small_partitions=len(ck.stats["distinct_codes"]), largest_cycle_seen=ck.stats["max_cycle"],
                                    severities_seen=sorted(ck.stats["sev_seen"])),
